@@ -1,0 +1,245 @@
+//go:build verif
+
+// Contracts for package crlrepository (machine-checked by /verif/govc; comment-only file).
+
+package crlrepository
+
+// ---- type invariants and lock discipline
+
+//@ type Entry
+//@   guarded_by entryLock: CRLStore, Loaded, LastUpdateSignatureVerifyFailed, LastUpdateSignature, Chains
+//@   immutable: entryLock, CRLLoader
+//@   invariant[C08,C09,C13] store_present: self.CRLStore != nil && storeOK(self.CRLStore) && !isTempStore(self.CRLStore)
+//@   invariant[C13] failed_has_result: self.LastUpdateSignatureVerifyFailed ==> resultOK(self.LastUpdateSignature)
+//@   invariant[C13] unloaded_has_chains: !self.Loaded ==> self.Chains != nil && chainsOK(self.Chains)
+
+//@ type Repository
+//@   guarded_by crlRepositoryLock: crlRepository
+//@   immutable: Factory, crlRepositoryLock, crlConfig, logger, crlLoaderFactory, crlReader
+//@   invariant[C13] map_ok: self.crlRepository != nil && (forall id string :: has(self.crlRepository, id) && self.crlRepository[id] != nil ==> entryShell(self.crlRepository[id]))
+
+//@ spec func entryShell(e ref) bool = e != nil && e.entryLock != nil && loaderOK(e.CRLLoader)
+//@ spec func repoOK(R ref) bool = R != nil && R.crlRepositoryLock != nil && R.crlConfig != nil && R.crlConfig.CDPConfig != nil && R.logger != nil && R.crlLoaderFactory != nil && R.crlReader != nil && R.Factory != nil && factoryOK(R.Factory)
+//@ spec func resultOK(r ref) bool = r != nil && r.Issuer != nil && r.Signature != nil && r.HashAndVerifyStrategy != nil && r.HashAndVerifyStrategy.VerifyStrategy != nil
+//@ spec func sigMode(R ref) int = R.crlConfig.SignatureValidationModeParsed
+
+// ---- signature verification (C04)
+
+//@ func verifyCRLSignature
+//@   props C04 C07 C16
+//@   requires resultOK(result) && chains != nil && chainsOK(chains)
+//@   assigns E.uint8, X.stream, fresh:E.*core.CertificateChainEntry
+//@   ensures err == nil ==> ret != nil && ret.Certificate != nil && ret.RawCertificate != nil
+//@   ensures[C04] success_means_verified: err == nil ==> called(SignatureVerifyStrategy.VerifySignature#1) && res(SignatureVerifyStrategy.VerifySignature#1) == nil && arg(SignatureVerifyStrategy.VerifySignature#1, 2) == ret.Certificate.PublicKey && arg(SignatureVerifyStrategy.VerifySignature#1, 0) == result.HashAndVerifyStrategy.VerifyStrategy && arg(SignatureVerifyStrategy.VerifySignature#1, 1) == result.HashAndVerifyStrategy.HashStrategy && arg(SignatureVerifyStrategy.VerifySignature#1, 3) == result.CalculatedSignature && arg(SignatureVerifyStrategy.VerifySignature#1, 4) == result.Signature.Bytes
+//@   ensures[C04] signer_is_a_candidate: err == nil ==> called(FindCertificateIssuerCandidates#1) && (exists k int :: 0 <= k && k < len(res(FindCertificateIssuerCandidates#1, 0)) && res(FindCertificateIssuerCandidates#1, 0)[k] == ret)
+//@   ensures[C04] no_candidate_fails: called(FindCertificateIssuerCandidates#1) && len(res(FindCertificateIssuerCandidates#1, 0)) == 0 ==> err != nil
+//@   loop 1 invariant !crlVerified && signatureCert == nil
+//@   loop 1 invariant forall k int :: 0 <= k && k < len(certCandidates) ==> certCandidates[k] != nil && certCandidates[k].Certificate != nil && certCandidates[k].RawCertificate != nil
+
+// ---- entry bookkeeping
+
+//@ func Repository.getEntrySync
+//@   props C01 C09 C13
+//@   requires repoOK(R) && unheld(R.crlRepositoryLock)
+//@   assigns L.held
+//@   ensures sameLocks()
+//@   ensures ret != nil ==> entryShell(ret)
+
+//@ func Repository.deleteEntrySync
+//@   props C08 C13
+//@   requires repoOK(R) && unheld(R.crlRepositoryLock)
+//@   assigns L.held, Repository.crlRepository, M.map[string]*crlrepository.Entry
+//@   ensures sameLocks()
+
+//@ func Repository.isEntryLoaded
+//@   props C13 C10
+//@   requires repoOK(R) && entryShell(entry) && unheld(entry.entryLock)
+//@   assigns L.held, crlrepository.Entry.CRLStore, crlrepository.Entry.Loaded, crlrepository.Entry.LastUpdateSignatureVerifyFailed, crlrepository.Entry.LastUpdateSignature, crlrepository.Entry.Chains
+//@   ensures sameLocks() && entryShell(entry)
+
+//@ func Repository.isEntryPresentAndLoaded
+//@   props C10 C13
+//@   requires repoOK(R) && unheld(R.crlRepositoryLock) && nolocks()
+//@   assigns L.held, H.crlrepository.Entry
+//@   ensures sameLocks()
+
+//@ func Repository.getCurrentIdentifiers
+//@   props C01 C13
+//@   requires repoOK(R) && unheld(R.crlRepositoryLock)
+//@   assigns L.held, Repository.crlRepository, M.map[string]*crlrepository.Entry, E.string
+//@   ensures sameLocks()
+
+//@ func Repository.getOrAddEntry
+//@   props C13 C16 C12
+//@   requires repoOK(R) && loaderOK(loader) && unheld(R.crlRepositoryLock) && chains != nil && chainsOK(chains)
+//@   assigns L.held, Repository.crlRepository, M.map[string]*crlrepository.Entry, X.fs, X.ldbhas
+//@   ensures sameLocks()
+//@   ensures r2 == nil ==> entryShell(r0)
+
+//@ func Repository.addNewEmptyEntry
+//@   props C12 C13 C16
+//@   requires repoOK(R) && loaderOK(loader) && wheld(R.crlRepositoryLock) && R.crlRepository != nil && chains != nil && chainsOK(chains)
+//@   assigns M.map[string]*crlrepository.Entry, X.fs, X.ldbhas
+//@   ensures err == nil ==> entryShell(ret) && ret.CRLStore != nil && storeOK(ret.CRLStore) && !isTempStore(ret.CRLStore) && (!ret.Loaded ==> ret.Chains == chains)
+//@   ensures err == nil ==> (forall q string :: has(R.crlRepository, q) == (old(has(R.crlRepository, q)) || q == identifier)) && R.crlRepository[identifier] == ret && (forall q string :: q != identifier ==> R.crlRepository[q] == old(R.crlRepository[q]))
+//@   ensures err != nil ==> (forall q string :: has(R.crlRepository, q) == old(has(R.crlRepository, q))) && (forall q string :: R.crlRepository[q] == old(R.crlRepository[q]))
+//@   ensures[C12,C16] loaded_means_meta_on_disk: err == nil && ret.Loaded ==> storeHas(ret.CRLStore, sum64(crlstore.MetaInfoKey))
+
+//@ func Repository.createTempFile
+//@   props C20 C07
+//@   requires repoOK(R)
+//@   assigns X.fs
+
+//@ func Repository.setLastSignatureVerifyFailed
+//@   props C13
+//@   requires repoOK(R) && entryShell(entry) && unheld(entry.entryLock) && resultOK(result)
+//@   assigns L.held, crlrepository.Entry.CRLStore, crlrepository.Entry.Loaded, crlrepository.Entry.LastUpdateSignatureVerifyFailed, crlrepository.Entry.LastUpdateSignature, crlrepository.Entry.Chains
+//@   ensures sameLocks() && entryShell(entry)
+//@ func Repository.resetLastSignatureVerifyFailed
+//@   props C13
+//@   requires repoOK(R) && entryShell(entry) && unheld(entry.entryLock)
+//@   assigns L.held, crlrepository.Entry.CRLStore, crlrepository.Entry.Loaded, crlrepository.Entry.LastUpdateSignatureVerifyFailed, crlrepository.Entry.LastUpdateSignature, crlrepository.Entry.Chains
+//@   ensures sameLocks() && entryShell(entry)
+
+//@ func Repository.getStoredCertAsChain
+//@   props C16 C07
+//@   requires repoOK(R) && storeOK(oldStore)
+//@   assigns X.fs, fresh:E.core.CertificateChain, fresh:E.core.CertificateChainEntry
+//@   ensures err == nil && ret != nil && chainsOK(ret)
+
+//@ func Repository.getCrlUpdateInformation
+//@   props C08 C13
+//@   requires repoOK(R) && entryShell(entry) && unheld(entry.entryLock)
+//@   assigns L.held, crlrepository.Entry.CRLStore, crlrepository.Entry.Loaded, crlrepository.Entry.LastUpdateSignatureVerifyFailed, crlrepository.Entry.LastUpdateSignature, crlrepository.Entry.Chains, X.fs, fresh:E.core.CertificateChain, fresh:E.core.CertificateChainEntry
+//@   ensures sameLocks() && entryShell(entry)
+//@   ensures r2 == nil ==> r0 != nil && r1 != nil && chainsOK(r1)
+
+//@ func Repository.updateEntry
+//@   props C08 C09 C13
+//@   requires repoOK(R) && entryShell(entry) && unheld(entry.entryLock) && storeOK(store) && isTempStore(store)
+//@   assigns L.held, crlrepository.Entry.CRLStore, crlrepository.Entry.Loaded, crlrepository.Entry.LastUpdateSignatureVerifyFailed, crlrepository.Entry.LastUpdateSignature, crlrepository.Entry.Chains, crlstore.MapStore.Map, M.map[string][]uint8, crlstore.LevelDbStore.Db, X.ldbhas, X.fs
+//@   ensures sameLocks() && entryShell(entry)
+
+// ---- intake paths (C04 C08 C11 C16)
+
+//@ func Repository.loadCRL
+//@   props C04 C11 C12 C13 C16 C20
+//@   requires repoOK(R) && entryShell(entry) && chains != nil && chainsOK(chains)
+//@   requires[C13] entry_lock_held: wheld(entry.entryLock)
+//@   requires entry.CRLStore != nil && storeOK(entry.CRLStore)
+//@   assigns crlrepository.Entry.CRLStore, crlrepository.Entry.Loaded, crlrepository.Entry.LastUpdateSignatureVerifyFailed, crlrepository.Entry.LastUpdateSignature, crlrepository.Entry.Chains, M.map[string][]uint8, X.ldbhas, X.fs, X.net, X.retry, X.stream, X.hacc, X.hkind, E.uint8, E.any, fresh:E.*core.CertificateChainEntry, H.crlloader.MultiSchemesCRLLoader, H.crlloader.URLLoader, H.crlloader.FileLoader
+//@   ensures sameLocks()
+//@   ensures[C16,C04] loaded_only_if_accepted: entry.Loaded && !old(entry.Loaded) ==> err == nil && called(CRLReader.ReadCRL#1) && res(CRLReader.ReadCRL#1, 1) == nil && (sigMode(R) != config.SignatureValidationModeVerify || (called(verifyCRLSignature#1) && res(verifyCRLSignature#1, 1) == nil))
+//@   ensures[C16,C04] verify_failure_rejects: sigMode(R) == config.SignatureValidationModeVerify && called(verifyCRLSignature#1) && res(verifyCRLSignature#1, 1) != nil ==> err != nil && entry.Loaded == old(entry.Loaded)
+//@   ensures[C16] lenient_modes_accept: called(CRLReader.ReadCRL#1) && res(CRLReader.ReadCRL#1, 1) == nil && sigMode(R) != config.SignatureValidationModeVerify && !(called(CRLPersisterProcessor.UpdateSignatureCertificate#1) && res(CRLPersisterProcessor.UpdateSignatureCertificate#1) != nil) ==> err == nil && entry.Loaded
+//@   ensures[C16] success_means_loaded: err == nil ==> entry.Loaded
+//@   ensures[C11] rejected_crl_leaves_no_entries: err != nil ==> (forall k string :: storeHas(entry.CRLStore, k) == old(storeHas(entry.CRLStore, k)))
+
+//@ func Repository.loadActively
+//@   props C10 C13 C16
+//@   requires repoOK(R) && entryShell(entry) && unheld(entry.entryLock) && chains != nil && chainsOK(chains) && crlLocations != nil
+//@   assigns L.held, crlrepository.Entry.CRLStore, crlrepository.Entry.Loaded, crlrepository.Entry.LastUpdateSignatureVerifyFailed, crlrepository.Entry.LastUpdateSignature, crlrepository.Entry.Chains, M.map[string][]uint8, X.ldbhas, X.fs, X.net, X.retry, X.stream, X.hacc, X.hkind, E.uint8, E.any, fresh:E.*core.CertificateChainEntry, H.crlloader.MultiSchemesCRLLoader, H.crlloader.URLLoader, H.crlloader.FileLoader
+//@   ensures sameLocks()
+
+//@ func Repository.updateCrlEntry
+//@   props C04 C08 C12 C13 C15 C16 C20
+//@   requires repoOK(R) && entryShell(entry) && unheld(entry.entryLock) && unheld(R.crlRepositoryLock) && nolocks()
+//@   requires newChains != nil ==> chainsOK(newChains)
+//@   assigns L.held, crlrepository.Entry.CRLStore, crlrepository.Entry.Loaded, crlrepository.Entry.LastUpdateSignatureVerifyFailed, crlrepository.Entry.LastUpdateSignature, crlrepository.Entry.Chains, H.crlrepository.Repository.crlRepository, M.map[string]*crlrepository.Entry, crlstore.MapStore.Map, M.map[string][]uint8, crlstore.LevelDbStore.Db, H.crlloader.MultiSchemesCRLLoader, H.crlloader.URLLoader, H.crlloader.FileLoader, X.ldbhas, X.fs, X.net, X.retry, X.stream, X.hacc, X.hkind, E.uint8, E.any, E.string, fresh:E.*core.CertificateChainEntry, fresh:E.core.CertificateChain, fresh:E.core.CertificateChainEntry
+//@   ensures[C16] refresh_follows_policy: called(CRLReader.ReadCRL#1) && res(CRLReader.ReadCRL#1, 1) == nil && sigMode(R) != config.SignatureValidationModeVerify && called(verifyCRLSignature#1) && res(verifyCRLSignature#1, 1) != nil ==> err == nil
+//@   ensures[C04,C08,C16] no_swap_without_verification: called(Repository.updateEntry#1) ==> called(verifyCRLSignature#1) && res(verifyCRLSignature#1, 1) == nil
+//@   ensures[C08,C15] failed_refresh_keeps_entry: err != nil ==> !called(Repository.deleteEntrySync#1)
+
+//@ func Repository.updateCRL
+//@   props C13 C15 C08
+//@   requires repoOK(R) && nolocks()
+//@   assigns L.held, crlrepository.Entry.CRLStore, crlrepository.Entry.Loaded, crlrepository.Entry.LastUpdateSignatureVerifyFailed, crlrepository.Entry.LastUpdateSignature, crlrepository.Entry.Chains, H.crlrepository.Repository.crlRepository, M.map[string]*crlrepository.Entry, crlstore.MapStore.Map, M.map[string][]uint8, crlstore.LevelDbStore.Db, H.crlloader.MultiSchemesCRLLoader, H.crlloader.URLLoader, H.crlloader.FileLoader, X.ldbhas, X.fs, X.net, X.retry, X.stream, X.hacc, X.hkind, E.uint8, E.any, E.string, fresh:E.*core.CertificateChainEntry, fresh:E.core.CertificateChain, fresh:E.core.CertificateChainEntry
+
+//@ func Repository.UpdateCRLs
+//@   props C15 C13 C08
+//@   requires repoOK(R) && nolocks()
+//@   assigns L.held, crlrepository.Entry.CRLStore, crlrepository.Entry.Loaded, crlrepository.Entry.LastUpdateSignatureVerifyFailed, crlrepository.Entry.LastUpdateSignature, crlrepository.Entry.Chains, H.crlrepository.Repository.crlRepository, M.map[string]*crlrepository.Entry, crlstore.MapStore.Map, M.map[string][]uint8, crlstore.LevelDbStore.Db, H.crlloader.MultiSchemesCRLLoader, H.crlloader.URLLoader, H.crlloader.FileLoader, X.ldbhas, X.fs, X.net, X.retry, X.stream, X.hacc, X.hkind, E.uint8, E.any, E.string, fresh:E.*core.CertificateChainEntry, fresh:E.core.CertificateChain, fresh:E.core.CertificateChainEntry
+//@   loop 1 invariant repoOK(R) && nolocks()
+
+//@ func Repository.UpdateCRL
+//@   props C15 C16 C13
+//@   requires repoOK(R) && nolocks() && crlLocations != nil
+//@   requires chains != nil ==> chainsOK(chains)
+//@   assigns L.held, crlrepository.Entry.CRLStore, crlrepository.Entry.Loaded, crlrepository.Entry.LastUpdateSignatureVerifyFailed, crlrepository.Entry.LastUpdateSignature, crlrepository.Entry.Chains, H.crlrepository.Repository.crlRepository, M.map[string]*crlrepository.Entry, crlstore.MapStore.Map, M.map[string][]uint8, crlstore.LevelDbStore.Db, H.crlloader.MultiSchemesCRLLoader, H.crlloader.URLLoader, H.crlloader.FileLoader, X.ldbhas, X.fs, X.net, X.retry, X.stream, X.hacc, X.hkind, E.uint8, E.any, E.string, fresh:E.*core.CertificateChainEntry, fresh:E.core.CertificateChain, fresh:E.core.CertificateChainEntry
+
+//@ func Repository.AddCRL
+//@   props C10 C13 C16
+//@   requires repoOK(R) && nolocks() && crlLocations != nil && chains != nil && chainsOK(chains)
+//@   assigns L.held, crlrepository.Entry.CRLStore, crlrepository.Entry.Loaded, crlrepository.Entry.LastUpdateSignatureVerifyFailed, crlrepository.Entry.LastUpdateSignature, crlrepository.Entry.Chains, H.crlrepository.Repository.crlRepository, M.map[string]*crlrepository.Entry, crlstore.MapStore.Map, M.map[string][]uint8, crlstore.LevelDbStore.Db, H.crlloader.MultiSchemesCRLLoader, H.crlloader.URLLoader, H.crlloader.FileLoader, X.ldbhas, X.fs, X.net, X.retry, X.stream, X.hacc, X.hkind, E.uint8, E.any, E.string, fresh:E.*core.CertificateChainEntry, fresh:E.core.CertificateChain, fresh:E.core.CertificateChainEntry
+//@   ensures nolocks()
+
+//@ func Repository.tryUpdateSignatureCertFromChain
+//@   props C13
+//@   requires repoOK(R) && entryShell(entry) && chains != nil && chainsOK(chains)
+//@   requires[C13] entry_lock_not_held: unheld(entry.entryLock)
+//@   assigns L.held, crlrepository.Entry.CRLStore, crlrepository.Entry.Loaded, crlrepository.Entry.LastUpdateSignatureVerifyFailed, crlrepository.Entry.LastUpdateSignature, crlrepository.Entry.Chains, M.map[string][]uint8, X.ldbhas, X.fs, E.uint8, X.stream, fresh:E.*core.CertificateChainEntry
+//@   ensures sameLocks()
+
+// ---- lookup (C01 C09 C10 C11)
+
+//@ func Repository.checkCrl
+//@   props C01 C09 C11 C13
+//@   requires repoOK(R) && nolocks() && certificate != nil
+//@   assigns L.held, crlrepository.Entry.CRLStore, crlrepository.Entry.Loaded, crlrepository.Entry.LastUpdateSignatureVerifyFailed, crlrepository.Entry.LastUpdateSignature, crlrepository.Entry.Chains, X.fs, E.uint8, X.stream
+//@   ensures sameLocks()
+//@   ensures err == nil ==> ret != nil
+//@   ensures[C09] store_error_is_error: called(CRLStore.GetCertRevocationStatus#1) && res(CRLStore.GetCertRevocationStatus#1, 1) != nil ==> err != nil
+//@   ensures[C01] listed_means_revoked: called(CRLStore.GetCertRevocationStatus#1) && res(CRLStore.GetCertRevocationStatus#1, 1) == nil && res(CRLStore.GetCertRevocationStatus#1, 0).Revoked ==> err == nil && ret.Revoked
+//@   ensures[C11] revoked_only_from_loaded_store: err == nil && ret.Revoked ==> called(CRLStore.GetCertRevocationStatus#1) && res(CRLStore.GetCertRevocationStatus#1, 1) == nil && res(CRLStore.GetCertRevocationStatus#1, 0).Revoked
+//@   ensures[C01,C09] loaded_entry_is_consulted: called(Repository.getEntrySync#1) && res(Repository.getEntrySync#1) != nil && called(RWMutex.RLock#1) && res(Repository.getEntrySync#1).Loaded ==> called(CRLStore.GetCertRevocationStatus#1)
+
+//@ func Repository.IsRevoked
+//@   props C01 C09 C10 C11 C13
+//@   requires repoOK(R) && nolocks() && certificate != nil
+//@   assigns L.held, crlrepository.Entry.CRLStore, crlrepository.Entry.Loaded, crlrepository.Entry.LastUpdateSignatureVerifyFailed, crlrepository.Entry.LastUpdateSignature, crlrepository.Entry.Chains, H.crlrepository.Repository.crlRepository, M.map[string]*crlrepository.Entry, crlstore.MapStore.Map, M.map[string][]uint8, crlstore.LevelDbStore.Db, H.crlloader.MultiSchemesCRLLoader, H.crlloader.URLLoader, H.crlloader.FileLoader, X.ldbhas, X.fs, X.net, X.retry, X.stream, X.hacc, X.hkind, E.uint8, E.any, E.string, fresh:E.*core.CertificateChainEntry, fresh:E.core.CertificateChain, fresh:E.core.CertificateChainEntry
+//@   ensures err == nil ==> ret != nil
+//@   ensures[C10] strict_gate: locations != nil && R.crlConfig.CDPConfig.CRLCDPStrict && called(Repository.isEntryPresentAndLoaded#1) && !res(Repository.isEntryPresentAndLoaded#1) ==> err != nil
+//@   ensures[C10] strict_unusable_location_denies: locations != nil && R.crlConfig.CDPConfig.CRLCDPStrict && called(CRLLoaderFactory.CreatePreferredCrlLoader#1) && res(CRLLoaderFactory.CreatePreferredCrlLoader#1, 1) != nil ==> err != nil
+//@   ensures[C10] lenient_never_denies_for_cdp: locations != nil && !R.crlConfig.CDPConfig.CRLCDPStrict && err != nil ==> called(Repository.checkCrl#1) && res(Repository.checkCrl#1, 1) != nil
+//@   loop 1 invariant repoOK(R) && nolocks()
+//@   loop 1 iter_ensures[C01,C09] every_error_and_hit_ends_the_search: called(Repository.checkCrl#1) ==> res(Repository.checkCrl#1, 1) == nil && !res(Repository.checkCrl#1, 0).Revoked
+//@   ensures[C01,C09] check_error_propagates: called(Repository.checkCrl#1) && res(Repository.checkCrl#1, 1) != nil ==> err != nil
+//@   ensures[C01] hit_propagates: called(Repository.checkCrl#1) && res(Repository.checkCrl#1, 1) == nil && res(Repository.checkCrl#1, 0).Revoked ==> err == nil && ret.Revoked
+
+// ---- housekeeping (C12 C20)
+
+//@ func Repository.DeleteTempFilesIfExist
+//@   props C12 C20
+//@   requires repoOK(R)
+//@   assigns X.fs
+//@ func Repository.deleteIfTempFileOrDir
+//@   props C12 C20
+//@   requires repoOK(R) && info != nil
+//@   assigns X.fs
+//@ func Repository.Close
+//@   props C09 C13 C20
+//@   requires repoOK(R) && nolocks()
+//@   assigns L.held, crlrepository.Entry.CRLStore, crlrepository.Entry.Loaded, crlrepository.Entry.LastUpdateSignatureVerifyFailed, crlrepository.Entry.LastUpdateSignature, crlrepository.Entry.Chains, M.map[string]*crlrepository.Entry, X.fs, X.retry
+//@   ensures nolocks()
+//@   loop 1 invariant repoOK(R) && wheld(R.crlRepositoryLock) && R.crlRepository != nil && (forall id string :: has(R.crlRepository, id) && R.crlRepository[id] != nil ==> entryShell(R.crlRepository[id]))
+//@   loop 1 invariant forall l int :: l != R.crlRepositoryLock ==> unheld(l)
+//@ func Repository.closeRepositoryEntry
+//@   props C09 C13 C20
+//@   requires repoOK(R) && wheld(R.crlRepositoryLock) && R.crlRepository != nil && entryShell(entry) && unheld(entry.entryLock)
+//@   assigns L.held, crlrepository.Entry.CRLStore, crlrepository.Entry.Loaded, crlrepository.Entry.LastUpdateSignatureVerifyFailed, crlrepository.Entry.LastUpdateSignature, crlrepository.Entry.Chains, M.map[string]*crlrepository.Entry, X.fs, X.retry
+//@   ensures sameLocks()
+//@   ensures forall q string :: has(R.crlRepository, q) == (old(has(R.crlRepository, q)) || q == id)
+//@   ensures forall q string :: q != id ==> R.crlRepository[q] == old(R.crlRepository[q])
+//@   ensures R.crlRepository[id] == nil
+//@ func NewCRLRepository
+//@   props C13 C20
+//@   requires logger != nil && crlConfig != nil && crlConfig.CDPConfig != nil
+//@   pure
+//@   fresh r1
+//@   ensures r0 == nil ==> repoOK(r1)
+
+//@ func Repository.DeleteTempFilesIfExist$1
+//@   props C12 C20
+//@   requires repoOK(R)
+//@   requires err == nil ==> info != nil
+//@   assigns X.fs
